@@ -5,7 +5,9 @@ case   = ("rt", schema, tree)            round trip an instance through dict / j
        | ("seq", schema, [step, ...])    several calls in ONE process, in order:
              step = ("rt", tree) | ("load", cidx, tree) | ("bad", base)   (bad: serialise a record holding an unserialisable object)
 schema = [(base, [(fname, ann, dflt), ...]), ...]      class k may only mention classes j < k
-  base = raw | reg | tyme | iceraw | icereg | icetyme | map | icemap
+  base = raw | reg | tyme | iceraw | icereg | icetyme | map | icemap | ("sub", j) subclass of class j
+       | ("chk", base, field, lo, hi, exc): the class also has a __post_init__ that raises exception class `exc`
+         (ValueError | OverflowError | Rejected (custom) | ValidationError (hio's)) when `field` holds an int outside [lo, hi]
   ann  = ("any",) | ("prim", tname) | ("dom", j) | ("opt", j | [j1, j2, ..]) | ("union", j | [j1, ..]) | ("list", j) | ("dictof", j) | ("strann", j)
          opt = Optional[A] / Optional[Union[A, B]],  union = A | None / A | B | None   (members tried in the listed order)
   dflt = None (required) | ("d", tree)
@@ -25,10 +27,32 @@ FNAMES = ["a", "b", "c", "x", "y", "k_1", "é", "_seq", "_", "__d", "x_", "class
 KEYS = FNAMES + ["", "q", "zz", "ключ"]
 
 
+def unwrap(base):
+    """(base without the validation wrapper, (field, lo, hi, exc) | None)"""
+    if isinstance(base, (tuple, list)) and base[0] == "chk":
+        return base[1], tuple(base[2:6])
+    return base, None
+
+
+def check_of(schema, j):
+    """the __post_init__ validation in force for class j: its own, else the nearest inherited one"""
+    base, chk = unwrap(schema[j][0])
+    if chk is not None:
+        return chk
+    if isinstance(base, (tuple, list)) and base[0] == "sub":
+        return check_of(schema, base[1])
+    return None
+
+
+class Rejected(Exception):
+    """a custom exception class for validators"""
+
+
 def fields_of(schema, j):
     """effective (name, ann, dflt) list of class j as dataclasses.fields() orders it: inherited fields first, a
     redeclared field keeps its inherited position"""
     base, own = schema[j]
+    base = unwrap(base)[0]
     if isinstance(base, (tuple, list)) and base[0] == "sub":
         inh = fields_of(schema, base[1])
         names = [f for f, _, _ in inh]
@@ -44,9 +68,9 @@ def fields_of(schema, j):
 
 def base_of(schema, j):
     """the hio base class kind at the root of class j's inheritance chain"""
-    base = schema[j][0]
+    base = unwrap(schema[j][0])[0]
     while isinstance(base, (tuple, list)) and base[0] == "sub":
-        base = schema[base[1]][0]
+        base = unwrap(schema[base[1]][0])[0]
     return base
 
 
@@ -62,8 +86,12 @@ def build_classes(schema):
         for fname, ann, dflt in flds:
             specs.append((fname, _pyann(ann, classes), _pyfield(dflt, classes)))
         root = base_of(schema, k)
+        base, chk = unwrap(base)
         parent = classes[base[1]] if isinstance(base, (tuple, list)) else bases[base]
-        cls = dataclasses.make_dataclass(name, specs, bases=(parent,), frozen=root.startswith("ice"))
+        ns = {}
+        if chk is not None and root not in ("tyme", "icetyme"):      # the tyme bases have a __post_init__ of their own
+            ns["__post_init__"] = _validator(*chk)
+        cls = dataclasses.make_dataclass(name, specs, bases=(parent,), frozen=root.startswith("ice"), namespace=ns)
         if root in ("reg", "tyme", "icereg", "icetyme"):
             cls = doming.registerify(cls)
         if root in ("tyme", "icetyme"):
@@ -79,6 +107,17 @@ def members(ann):
     if ann[0] in ("opt", "union"):
         return list(ann[1]) if isinstance(ann[1], (list, tuple)) else [ann[1]]
     return []
+
+
+def _validator(field, lo, hi, exc):
+    from hio import hioing
+    klass = dict(ValueError=ValueError, OverflowError=OverflowError, Rejected=Rejected, ValidationError=hioing.ValidationError)[exc]
+
+    def __post_init__(self):
+        v = getattr(self, field)
+        if isinstance(v, int) and not isinstance(v, bool) and not lo <= v <= hi:
+            raise klass(f"{field}={v} outside [{lo}, {hi}]")
+    return __post_init__
 
 
 def _pyann(ann, classes):
@@ -198,6 +237,9 @@ def wire_schema(schema):
             else:
                 w = (a, ann[1])
             fs.append(("fld", fname.encode("utf-8"), w, None if dflt is None else wire_tree(dflt[1])))
+        chk = check_of(schema, k)
+        if chk is not None and base_of(schema, k) not in ("tyme", "icetyme"):
+            fs.append(("chk", chk[0].encode("utf-8"), chk[1], chk[2]))
         out.append(("cls",) + tuple(fs))
     return tuple(out)
 
@@ -371,6 +413,11 @@ def gen_schema(rng, dirty):
                     dflt = None          # a redeclared required field stays required (it keeps its inherited position)
             flds.append((fname, ann, dflt))
         flds.sort(key=lambda f: f[2] is not None)      # required fields first (dataclass rule)
+        if rng.random() < 0.2:
+            eff = [f for f, _, _ in fields_of(schema + [(base, flds)], k)]
+            if eff:
+                lo, hi = rng.choice(RANGES)
+                base = ("chk", base, rng.choice(eff), lo, hi, rng.choice(EXCS))
         schema.append((base, flds))
     return schema
 
@@ -405,7 +452,41 @@ def gen_value(rng, schema, ann, depth, dirty):
 
 
 def gen_obj(rng, schema, j, depth, dirty):
-    return ("obj", j, [gen_value(rng, schema, ann, depth, dirty) for _, ann, _ in fields_of(schema, j)])
+    vals = [gen_value(rng, schema, ann, depth, dirty) for _, ann, _ in fields_of(schema, j)]
+    chk = check_of(schema, j)
+    if chk is not None and base_of(schema, j) not in ("tyme", "icetyme"):
+        for i, (fname, _, _) in enumerate(fields_of(schema, j)):
+            if fname == chk[0] and vals[i][0] == "int" and not chk[1] <= vals[i][1] <= chk[2]:
+                vals[i] = ("int", rng.choice([chk[1], chk[2], rng.randint(chk[1], chk[2])]))      # an instance satisfies its own validator
+    return ("obj", j, vals)
+
+
+RANGES = [(0, 100), (-5, 5), (1, 2 ** 31), (0, 0), (-2 ** 63, -1), (101, 1000)]
+EXCS = ["ValueError", "OverflowError", "Rejected", "ValidationError"]
+
+
+def gen_rt_validated(rng):
+    """a union of look-alike classes (same field names) that only their __post_init__ validators tell apart, holding a
+    value of either member that the OTHER member's validator rejects (or, sometimes, admits)"""
+    base = rng.choice(["raw", "iceraw", "reg", "icereg", "map"])
+    fname = rng.choice(["n", "_n", "x", "é"])
+    other = [(f, ("any",), ("d", gen_leaf(rng))) for f in rng.sample(["a", "b", "k_1"], rng.choice([0, 1, 2]))]
+    flds = [(fname, ("any",), ("d", ("int", 0)))] + other
+    r1, r2 = rng.sample(RANGES, 2)
+    A = (("chk", base, fname, r1[0], r1[1], rng.choice(EXCS)), flds)
+    B = (("chk", base, fname, r2[0], r2[1], rng.choice(EXCS)), flds) if rng.random() < 0.6 else (base, flds)
+    order = rng.choice([[0, 1], [1, 0]])
+    top_base = rng.choice(["raw", "iceraw", "reg"])
+    T = (top_base, [("level", (rng.choice(["opt", "union"]), order), ("d", ("null",))), ("also", ("dom", rng.choice([0, 1])), ("d", ("null",))), ("g", ("any",), ("d", ("null",)))])
+    schema = [A, B, T]
+    m = rng.choice([0, 1])
+    v = gen_obj(rng, schema, m, 1, False)
+    rng_m = check_of(schema, m)
+    lo, hi = (rng_m[1], rng_m[2]) if rng_m else (-1000, 1000)
+    val = rng.choice([lo, hi, rng.randint(lo, hi)])
+    v[2][0] = ("int", val)
+    w = gen_obj(rng, schema, T[1][1][1][1], 1, False)
+    return ("rt", schema, ("obj", 2, [v if rng.random() < 0.9 else ("null",), w, gen_plain(rng, 1)]))
 
 
 def gen_rt(rng):
